@@ -232,7 +232,8 @@ def _tree(task):
     recs = numpy_alphabet(spec, "core", P["cap"])
     # (1) every single-row batch over the full alphabet, every weight mode, called twice (state carry-over)
     if P["full1"]:
-        full = numpy_alphabet(spec, "full", None)
+        # quick tier: the (priority-ordered) full alphabet is cut at 128 records for the large shapes of DX
+        full = numpy_alphabet(spec, "full", None if tier != "quick" else 128)
         for r in full:
             for m in modes_for(1, tier, (0.0, 1.0, 0.5, 2.0)):
                 acc.add(check_case(spec, [r], m, ()))
